@@ -1,9 +1,11 @@
 (* C07 -- results do not depend on labels, storage order or cell orientation.  Statements only.
    Proved: id renaming; the interface decomposition is invariant (as a set of interfaces up to traversal direction) under starting any
    cell's cycle at another vertex and under storing any subset of cells in the opposite rotational sense.
-   PARTIAL: invariance of the solved tensions / pressures under these changes is evaluated by the oracle. *)
-From Coq Require Import ZArith List Bool.
-From Forsys Require Import Model.PyList Model.Interfaces Model.PressureSys Proofs.InterfacesProofs Proofs.PressureProofs Proofs.ShiftProofs.
+   A relabelling permutes the unknowns and the equations of the least-squares system; the residual of a permuted candidate against the
+   permuted system equals the residual of the candidate against the original system (so the minimisers correspond).
+   PARTIAL: that the implementation's assembled systems are such permutations of each other, and the solved values, are evaluated by the oracle. *)
+From Coq Require Import ZArith List Bool Reals Permutation.
+From Forsys Require Import Model.PyList Model.Interfaces Model.PressureSys Proofs.InterfacesProofs Proofs.PressureProofs Proofs.ShiftProofs Model.Num Model.Cert Proofs.CertProofs Proofs.RelabelProofs.
 Import ListNotations.
 Open Scope Z_scope.
 
@@ -54,6 +56,14 @@ Example C07_example :
   = map (map (fun x => x + 10)) (create_edges_new (fun v => memZ v [1; 4]) [(0, [0; 1; 2; 3; 4; 5])]).
 Proof. vm_compute. reflexivity. Qed.
 
+(* ---- solved values: the least-squares objective of the relabelled system at a permuted candidate is the objective of the original
+   system at the candidate (unknowns taken in the order p, equations in the order q) *)
+Theorem C07_residual_invariant_under_relabelling : forall n (p q : list nat) (A : list (list R)) (b x : list R),
+  rows_ok n A -> length x = n -> length b = length A -> Permutation p (seq 0 n) -> Permutation q (seq 0 (length A)) ->
+  let '(A', b') := relabel_system p q A b in
+  sqn ROps (vsub ROps (mv ROps A' (permute 0%R p x)) b') = sqn ROps (vsub ROps (mv ROps A x) b).
+Proof. exact residual_of_relabelled_system. Qed.
+
 Print Assumptions C07_interfaces_rename.
 Print Assumptions C07_cell_interfaces_rename.
 Print Assumptions C07_pressure_row_orientation.
@@ -61,3 +71,4 @@ Print Assumptions C07_no_repeat.
 Print Assumptions C07_cell_shift.
 Print Assumptions C07_cell_flip.
 Print Assumptions C07_tissue_shift_flip.
+Print Assumptions C07_residual_invariant_under_relabelling.
